@@ -1,5 +1,5 @@
 ---- MODULE Itp_Full ----
 (* instance wrapper for C11 (TLC evaluates zero-arity definitions eagerly: one module per instance) *)
 EXTENDS ItpRoundTripExport
-MCMols == MolsFull(0)
+MCMols == TLCEval(MolsFull(0))
 ====
